@@ -153,6 +153,49 @@ def handler_is_stateless(cfg, db, chk):
 def run(db, chk):
     handler_is_stateless("ws", db, chk)
     check_config("ws", db, chk)
+    no_guard_across_callback("ws", db, chk)
     db2 = facts.load("tf-nohp")
     check_config("tf-nohp", db2, chk)
+    no_guard_across_callback("tf-nohp", db2, chk)
     chk.analysed["configs"] = ["ws (hp-hashmap/dashmap registry)", "tf-nohp (Concurrent<Mutex<HashMap>> registry)"]
+
+
+GUARD_TY = re.compile(r"(^|[<\s])(dashmap::mapref::one::RefMut<|dashmap::mapref::one::Ref<|dashmap::mapref::entry::|lock_api::mutex::(Mapped)?MutexGuard<|parking_lot::\w*Guard|std::sync::\w*Guard<)")
+
+
+def no_guard_across_callback(cfg, db, chk):
+    """the signal handler only TRIES to lock the registry (shard) and skips what it cannot lock.  Whoever holds a registry guard while running
+    caller-supplied code (a write of any length) makes the handler skip every other tempfile of that shard - of the whole registry without
+    hp-hashmap.  So in the Handle API no guard into the registry is alive across a call of a closure the caller passed in: the entry is taken
+    out (remove), used, and put back.  Liveness = from the call that produced the guard to the MIR drop of that local."""
+    scope = [f for f in db.by_crate["gix_tempfile"] if f.kind != "promoted" and "::handle::" in f.name]
+    chk.floor("[%s] functions of the Handle API" % cfg, len(scope), 8)
+    n_cb = 0
+    for f in scope:
+        cbs = []
+        for c in f.calls():
+            if c.is_(r"ops::function::Fn(Once|Mut)?::call(_once|_mut)?$") and c.args and "p" in c.args[0]:
+                ty = f.locals[c.args[0]["p"][0]]
+                if ty.startswith("impl Fn") or re.match(r"^[A-Z]\w{0,12}$", ty):
+                    cbs.append(c)
+        if not cbs:
+            continue
+        n_cb += len(cbs)
+        guards = [l for l in range(f.argc + 1, len(f.locals)) if not f.locals[l].startswith("&") and GUARD_TY.search(f.locals[l])]
+        bad = []
+        for g in guards:
+            born = [c for c in f.calls() if c.dest == [g]]
+            drops = {b for b in range(len(f.blocks)) if f.term(b)[0] == "drop" and f.term(b)[1] == [g]}
+            for bc in born:
+                if bc.target is None:
+                    continue
+                live = f.reach_from(bc.target, avoid=drops)
+                for c in cbs:
+                    if c.block in live:
+                        bad.append((GUARD_TY.search(f.locals[g]).group(2).rstrip("<:").split("::")[-1], bc.name.split("::")[-1], c.line))
+        for c in cbs:
+            hit = [b for b in bad if b[2] == c.line]
+            chk.ob("no-registry-guard-across-callback", "[%s] %s callback@%d" % (cfg, f.name.split("::")[-1], c.line), not hit,
+                   "a %s obtained by %s() is alive while the caller's closure runs: a termination signal during that time makes cleanup skip all other registered tempfiles behind the same lock" % (hit[0][0], hit[0][1]) if hit else "",
+                   c.where(), key="guard-across-callback|%s|%s" % (cfg, f.name.split("::")[-1]))
+    chk.floor("[%s] caller-supplied closures invoked by the Handle API" % cfg, n_cb, 1)
